@@ -5,14 +5,20 @@
      world                 configurations (syntax map, registered classes, palette cache), a heap of
                            palette objects with identities, the per-class no_color slots, the global
                            configuration, the enum cell caches, the HCommand objects
-     op / step / run_ops   a history: NewConf, Drop, Register (add_new_items), SetGlobal, Render,
-                           NewH (HCommand()), Help; every Render / NewH carries the identities the
-                           allocator will hand out (ANY list: an identity of a live object is refused)
+     op / step / run_ops   a history: NewConf, Drop, Register (add_new_items), SetGlobal, Render, and the
+                           lazy-result operations Make / Next / WholeH; every Render / Make carries the
+                           identities the allocator will hand out (ANY list: an identity of a live object
+                           is refused).  Console help h(obj) is a Render of the help program with
+                           colors_conf=None (the global configuration), consumed by line: since the repair
+                           of hdoc-captured-palette HCommand looks its palette up when it prints
+                           (source_facts), and HCommand() itself does nothing to the world
      objspec               what an object prints: lines of items naming the palette accessor that
                            colours each text (taken from the implementation by the harness)
      reach fts w           w is reached from the initial world by a history whose operations meet
-                           op_ok: user syntax items in the modelled colour language, objects without
-                           aliasing enum values (obj_ok), no palette requested with synced=True
+                           op_ok: user syntax items in the modelled colour language, no palette requested
+                           with synced=True.  (No guard on the objects: since the repair of
+                           enum-cache-equal-keys Python-equal enum values -- 1, True, 1.0 -- have a cache
+                           entry each, source_facts)
      inv                   the four cache-coherence invariants (LemmasInv.v)
      plain_lines / pure_lines   the rendering as a pure function of colours (LemmasPure.v)
      eko                   = enum_key_is_object, read from ak/ppobj.py on every run
@@ -33,9 +39,12 @@ Definition reach (fts : list (Z * ftdef)) (w : world) : Prop :=
 
 (* ---- what the proofs need from the source (regenerated on every run) ---- *)
 (* the enum cell cache is keyed by the palette object (not by id(palette)); a new
-   syntax id empties the palette cache of the configuration *)
-Theorem source_facts : enum_key_is_object = true /\ reset_cache_on_new = true.
-Proof. exact (conj enum_key_object reset_on_new). Qed.
+   syntax id empties the palette cache of the configuration; below the palette the enum
+   caches are indexed with (type(value), str(value), value) -- one entry per literal, not per
+   class of Python-equal values; HCommand / LLImpl look their palette up when they print *)
+Theorem source_facts :
+  enum_key_is_object = true /\ reset_cache_on_new = true /\ enum_val_key_literal = true /\ help_palette_at_call = true.
+Proof. exact (conj enum_key_object (conj reset_on_new (conj val_key_literal help_at_call))). Qed.
 Print Assumptions source_facts.
 
 (* ---- the caches stay coherent along every history ---- *)
@@ -47,8 +56,9 @@ Theorem caches_coherent : forall fts w, reach fts w -> inv fts w.
 Proof. exact inv_reachable. Qed.
 Print Assumptions caches_coherent.
 
-(* the enum cell cache is transparent: what it returns is what the palette would
-   produce now (the repaired defect enum-cache-id-reuse) *)
+(* the enum cell cache is transparent: what it returns for a literal is what the palette
+   would produce for it now (the repaired defects enum-cache-id-reuse and
+   enum-cache-equal-keys: render_item looks the cell up by the literal) *)
 Theorem enum_cache_transparent : forall fts w ft e v modi,
   reach fts w ->
   snd (enum_cell fts w ft e v v modi) = pure_cell fts (p_colors (pal_of w e)) ft v modi.
@@ -85,10 +95,10 @@ Print Assumptions whole_eq_lines_chunks.
 
 (* a result consumed whole, by line, or both in either order: one text *)
 Theorem whole_eq_lines : forall fts w obj copt nc pa mode ids w' outs t1 t2,
-  reach fts w -> obj_ok obj -> pa <> PSynced ->
+  reach fts w -> pa <> PSynced ->
   step eko fts w (ORender obj copt nc pa mode ids) = Ok (w', outs) ->
   In t1 outs -> In t2 outs -> t1 = t2.
-Proof. intros fts w obj copt nc pa mode ids w' outs t1 t2 H. exact (render_texts_equal fts _ _ _ _ _ _ _ _ _ _ _ (inv_reachable fts w H)). Qed.
+Proof. intros fts w obj copt nc pa mode ids w' outs t1 t2 H. exact (render_texts_equal fts _ _ _ _ _ _ _ _ _ _ _ (inv_reachable fts w H) (obj_ok_all obj)). Qed.
 Print Assumptions whole_eq_lines.
 
 (* ---- strip_layout ---- *)
@@ -104,13 +114,13 @@ Print Assumptions strip_layout_chunks.
    palette and of consuming the result) with the escape sequences removed is
    the no_color rendering (of any other history), which has no ESC *)
 Theorem strip_layout : forall fts w1 w2 obj copt1 copt2 nc pa1 pa2 mode1 mode2 ids1 ids2 w1' w2' outs1 outs2 t1 t2,
-  reach fts w1 -> reach fts w2 -> obj_ok obj -> obj_noesc fts obj -> pa1 <> PSynced -> pa2 <> PSynced ->
+  reach fts w1 -> reach fts w2 -> obj_noesc fts obj -> pa1 <> PSynced -> pa2 <> PSynced ->
   step eko fts w1 (ORender obj copt1 nc pa1 mode1 ids1) = Ok (w1', outs1) ->
   step eko fts w2 (ORender obj copt2 true pa2 mode2 ids2) = Ok (w2', outs2) ->
   In t1 outs1 -> In t2 outs2 -> strip t1 = t2 /\ no_esc t2.
 Proof.
   intros fts w1 w2 obj copt1 copt2 nc pa1 pa2 mode1 mode2 ids1 ids2 w1' w2' outs1 outs2 t1 t2 H1 H2.
-  exact (render_strip_pair fts _ _ _ _ _ _ _ _ _ _ _ _ _ _ _ _ _ _ (inv_reachable fts w1 H1) (inv_reachable fts w2 H2)).
+  exact (render_strip_pair fts _ _ _ _ _ _ _ _ _ _ _ _ _ _ _ _ _ _ (inv_reachable fts w1 H1) (inv_reachable fts w2 H2) (obj_ok_all obj)).
 Qed.
 Print Assumptions strip_layout.
 
@@ -129,20 +139,23 @@ Definition history_independent_statement : Prop :=
 (* proved, no_color: for every history, every object, every way of passing the
    palette, every allocation oracle -- closed form and history form *)
 Theorem no_color_closed_form : forall fts w obj copt pa mode ids w' outs,
-  reach fts w -> obj_ok obj -> pa <> PSynced ->
+  reach fts w -> pa <> PSynced ->
   step eko fts w (ORender obj copt true pa mode ids) = Ok (w', outs) ->
   outs = texts_of mode (plain_lines fts (o_lines obj)).
-Proof. intros fts w obj copt pa mode ids w' outs H. exact (render_no_color fts _ _ _ _ _ _ _ _ (inv_reachable fts w H)). Qed.
+Proof. intros fts w obj copt pa mode ids w' outs H. exact (render_no_color fts _ _ _ _ _ _ _ _ (inv_reachable fts w H) (obj_ok_all obj)). Qed.
 Print Assumptions no_color_closed_form.
 
 Theorem history_independent_no_color : forall fts ops w outs obj copt pa mode ids w' t ops' pa' copt' ids' wf outsf,
   Forall op_ok ops -> run_ops eko fts w0 ops = Ok (w, outs) ->
-  obj_ok obj -> pa <> PSynced -> pa' <> PSynced ->
+  pa <> PSynced -> pa' <> PSynced ->
   step eko fts w (ORender obj copt true pa mode ids) = Ok (w', t) ->
   Forall op_ok ops' ->
   run_ops eko fts w0 (ops' ++ [ORender obj copt' true pa' mode ids']) = Ok (wf, outsf) ->
   last outsf [] = t.
-Proof. exact hist_no_color. Qed.
+Proof.
+  intros fts ops w outs obj copt pa mode ids w' t ops' pa' copt' ids' wf outsf Hok E.
+  exact (hist_no_color fts ops w outs obj copt pa mode ids w' t ops' pa' copt' ids' wf outsf Hok E (obj_ok_all obj)).
+Qed.
 Print Assumptions history_independent_no_color.
 
 (* proved, colour, objects printed through ONE palette (pretty-printer, git history
@@ -151,23 +164,26 @@ Print Assumptions history_independent_no_color.
    force -- palette caches, identities, other configurations, earlier
    renderings do not enter *)
 Theorem single_palette_closed_form : forall fts w obj copt pa mode ids w' outs,
-  reach fts w -> obj_ok obj -> simple_obj obj -> pa <> PSynced ->
+  reach fts w -> simple_obj obj -> pa <> PSynced ->
   step eko fts w (ORender obj copt false pa mode ids) = Ok (w', outs) ->
   outs = texts_of mode (pure_lines fts
            (top_colors (match pa with PObj c => conf_of w c | _ => conf_in_force w copt end) (o_cls obj))
            (fun _ => []) (o_lines obj)).
-Proof. intros fts w obj copt pa mode ids w' outs H. exact (render_simple_colour fts _ _ _ _ _ _ _ _ (inv_reachable fts w H)). Qed.
+Proof. intros fts w obj copt pa mode ids w' outs H. exact (render_simple_colour fts _ _ _ _ _ _ _ _ (inv_reachable fts w H) (obj_ok_all obj)). Qed.
 Print Assumptions single_palette_closed_form.
 
 Theorem history_independent_single_palette : forall fts ops1 w1 o1 ops2 w2 o2 obj copt mode ids1 ids2 w1' t1 w2' t2,
   Forall op_ok ops1 -> run_ops eko fts w0 ops1 = Ok (w1, o1) ->
   Forall op_ok ops2 -> run_ops eko fts w0 ops2 = Ok (w2, o2) ->
-  obj_ok obj -> simple_obj obj ->
+  simple_obj obj ->
   core (conf_in_force w1 copt) = core (conf_in_force w2 copt) ->
   step eko fts w1 (ORender obj copt false PNone mode ids1) = Ok (w1', t1) ->
   step eko fts w2 (ORender obj copt false PNone mode ids2) = Ok (w2', t2) ->
   t1 = t2.
-Proof. exact hist_single_palette. Qed.
+Proof.
+  intros fts ops1 w1 o1 ops2 w2 o2 obj copt mode ids1 ids2 w1' t1 w2' t2 H1 E1 H2 E2.
+  exact (hist_single_palette fts ops1 w1 o1 ops2 w2 o2 obj copt mode ids1 ids2 w1' t1 w2' t2 H1 E1 H2 E2 (obj_ok_all obj)).
+Qed.
 Print Assumptions history_independent_single_palette.
 
 (* PARTIAL, colour, compound objects (tables, record formatters): the palette of the
@@ -180,13 +196,13 @@ Print Assumptions history_independent_single_palette.
    Which extension is not determined by the configuration alone: that is the
    channel of the open finding late-registered-parent *)
 Theorem history_independent_compound_partial : forall fts w obj copt mode ids w' outs,
-  reach fts w -> obj_ok obj ->
+  reach fts w ->
   step eko fts w (ORender obj copt false PNone mode ids) = Ok (w', outs) ->
   exists subc,
     outs = texts_of mode (pure_lines fts (top_colors (conf_in_force w copt) (o_cls obj)) subc (o_lines obj)) /\
     forall K, In K (lines_subs (o_lines obj)) ->
       exists cf', conf_grows (conf_in_force w copt) cf' /\ subc K = local_colors cf' K false.
-Proof. intros fts w obj copt mode ids w' outs H. exact (render_colour_subs fts _ _ _ _ _ _ _ (inv_reachable fts w H)). Qed.
+Proof. intros fts w obj copt mode ids w' outs H. exact (render_colour_subs fts _ _ _ _ _ _ _ (inv_reachable fts w H) (obj_ok_all obj)). Qed.
 Print Assumptions history_independent_compound_partial.
 
 (* GUARDED closed form for compound objects: once every syntax id used by the object's
@@ -196,13 +212,13 @@ Print Assumptions history_independent_compound_partial.
    (no_color flag, syntax map); history does not enter.  The refuted case is
    exactly the cold one. *)
 Theorem history_independent_compound_warm : forall fts w obj copt mode ids w' outs,
-  reach fts w -> obj_ok obj ->
+  reach fts w ->
   warm_cls (conf_in_force w copt) (o_cls obj) = true ->
   (forall K, In K (lines_subs (o_lines obj)) -> warm_cls (conf_in_force w copt) K = true) ->
   step eko fts w (ORender obj copt false PNone mode ids) = Ok (w', outs) ->
   outs = texts_of mode (pure_lines fts (local_colors (conf_in_force w copt) (o_cls obj) false)
                                    (fun K => local_colors (conf_in_force w copt) K false) (o_lines obj)).
-Proof. intros fts w obj copt mode ids w' outs H. exact (render_colour_warm fts _ _ _ _ _ _ _ (inv_reachable fts w H)). Qed.
+Proof. intros fts w obj copt mode ids w' outs H. exact (render_colour_warm fts _ _ _ _ _ _ _ (inv_reachable fts w H) (obj_ok_all obj)). Qed.
 Print Assumptions history_independent_compound_warm.
 
 (* the guard is satisfiable and not vacuous: a fresh default configuration is cold for
@@ -217,11 +233,11 @@ Example warm_satisfiable :
     run_ops eko [] w0 [ONewConf 0 false []; ORender tbl (Some 0) false PNone 0 [1; 2; 3]] = Ok (w1, o1) /\
     warm_cls (conf_in_force w1 (Some 0)) table_cls = true /\
     warm_cls (conf_in_force w1 (Some 0)) title_cls = true /\ warm_cls (conf_in_force w1 (Some 0)) record_cls = true /\
-    lines_subs (o_lines tbl) = [title_cls; record_cls] /\ obj_ok tbl.
+    lines_subs (o_lines tbl) = [title_cls; record_cls].
 Proof.
   cbv zeta. eexists. eexists. eexists. eexists. split; [vm_compute; reflexivity|]. split; [vm_compute; reflexivity|].
   split; [vm_compute; reflexivity|]. split; [vm_compute; reflexivity|]. split; [vm_compute; reflexivity|].
-  split; [vm_compute; reflexivity|]. split; [reflexivity|repeat constructor].
+  split; [vm_compute; reflexivity|]. reflexivity.
 Qed.
 Print Assumptions warm_satisfiable.
 
@@ -230,7 +246,7 @@ Print Assumptions warm_satisfiable.
    class; the first rendering of a table uses a palette built before that *)
 Theorem history_independent_refuted :
   exists fts ops w outs obj c ct nc mode ids w' t ids' wf outsf,
-    Forall op_ok ops /\ obj_ok obj /\
+    Forall op_ok ops /\
     run_ops eko fts w0 ops = Ok (w, outs) /\
     zfind c (content ops) = Some ct /\
     step eko fts w (ORender obj (Some c) nc PNone mode ids) = Ok (w', t) /\
@@ -239,7 +255,7 @@ Theorem history_independent_refuted :
 Proof.
   exists [], wit_late_ops. eexists. eexists. exists wit_tbl, 0. eexists. exists false, 0, [3; 4]. eexists. eexists.
   exists [1; 2]. eexists. eexists.
-  split; [repeat constructor; discriminate|]. split; [repeat constructor|].
+  split; [repeat constructor; discriminate|].
   split; [vm_compute; reflexivity|]. split; [vm_compute; reflexivity|].
   split; [vm_compute; reflexivity|]. split; [vm_compute; reflexivity|].
   vm_compute. discriminate.
@@ -249,41 +265,94 @@ Print Assumptions history_independent_refuted.
 Theorem history_independent_statement_false : ~ history_independent_statement.
 Proof.
   intros H.
-  destruct history_independent_refuted as (fts & ops & w & outs & obj & c & ct & nc & mode & ids & w' & t & ids' & wf & outsf & _ & _ & A & B & C & D & E).
+  destruct history_independent_refuted as (fts & ops & w & outs & obj & c & ct & nc & mode & ids & w' & t & ids' & wf & outsf & _ & A & B & C & D & E).
   exact (E (H _ _ _ _ _ _ _ _ _ _ _ _ _ _ _ A B C D)).
 Qed.
 Print Assumptions history_independent_statement_false.
 
-(* REFUTED outside the guard obj_ok (open finding enum-cache-equal-keys): the literals
-   1 and True of one enum field type share a cache entry *)
-Theorem enum_alias_refuted :
-  exists fts ops w outs obj c ct nc mode ids w' t ids' wf outsf,
-    run_ops eko fts w0 ops = Ok (w, outs) /\
-    zfind c (content ops) = Some ct /\
-    step eko fts w (ORender obj (Some c) nc PNone mode ids) = Ok (w', t) /\
-    run_ops eko fts w0 (fresh_ops c ct ++ [ORender obj (Some c) nc PNone mode ids']) = Ok (wf, outsf) /\
-    last outsf [] <> t.
-Proof.
-  exists wit_ft, wit_alias_ops. eexists. eexists. exists (wit_etbl 1), 0. eexists. exists false, 0, [3; 4]. eexists. eexists.
-  exists [1; 2]. eexists. eexists.
-  split; [vm_compute; reflexivity|]. split; [vm_compute; reflexivity|].
-  split; [vm_compute; reflexivity|]. split; [vm_compute; reflexivity|].
-  vm_compute. discriminate.
-Qed.
-Print Assumptions enum_alias_refuted.
+(* ---- repaired: enum-cache-equal-keys ---- *)
+(* The enum cell / length caches are indexed with (type(value), str(value), value): one entry per
+   literal (source_facts).  Which literals are equal under Python's == -- the vkey field of an enum
+   item, the key of the caches before the repair -- does not enter ANY operation: changing it
+   arbitrarily (rekey f) changes neither the texts nor the world.  No theorem of this file carries
+   the former guard "no two Python-equal enum values in one field type" any more. *)
+Theorem enum_equality_irrelevant : forall fts w f o copt nc pa mode ids h,
+  step eko fts w (ORender (rekey f o) copt nc pa mode ids) = step eko fts w (ORender o copt nc pa mode ids) /\
+  step eko fts w (ONext h (rekey f o) ids) = step eko fts w (ONext h o ids) /\
+  step eko fts w (OWholeH h (rekey f o) mode ids) = step eko fts w (OWholeH h o mode ids).
+Proof. intros. apply step_rekey. Qed.
+Print Assumptions enum_equality_irrelevant.
 
-(* REFUTED for console help (open finding hdoc-captured-palette): an HCommand
-   keeps the palette of the global configuration it was constructed under *)
-Theorem help_captured_refuted :
-  exists obj outs1 outs2,
-    outs_of (run_ops eko [] w0 [ONewH 0 [1]; ONewConf 0 true []; OSetGlobal (Some 0); OHelp 0 obj]) = Some outs1 /\
-    outs_of (run_ops eko [] w0 [ONewConf 0 true []; OSetGlobal (Some 0); ONewH 0 [1]; OHelp 0 obj]) = Some outs2 /\
-    last outs1 [] <> last outs2 [] /\ exists t, In t (last outs1 []) /\ In 27 t.
+(* the former witness (enum_alias_refuted): literal True after literal 1 through one field type with
+   key 1 -- the text now is the text of a fresh start ("True one", not the cached "1 one") *)
+Example enum_alias_repaired :
+  exists w outs ct w' t wf outsf,
+    run_ops eko wit_ft w0 wit_alias_ops = Ok (w, outs) /\
+    zfind 0 (content wit_alias_ops) = Some ct /\
+    step eko wit_ft w (ORender (wit_etbl 1) (Some 0) false PNone 0 [3; 4]) = Ok (w', t) /\
+    run_ops eko wit_ft w0 (fresh_ops 0 ct ++ [ORender (wit_etbl 1) (Some 0) false PNone 0 [1; 2]]) = Ok (wf, outsf) /\
+    last outsf [] = t /\ t = [[27; 91; 51; 52; 59; 49; 109; 84; 27; 91; 48; 109]] /\
+    nth 1 outs [] = [[27; 91; 51; 51; 109; 49; 27; 91; 48; 109]].
 Proof.
-  exists wit_hobj. eexists. eexists. split; [vm_compute; reflexivity|]. split; [vm_compute; reflexivity|].
-  split; [vm_compute; discriminate|]. eexists. split; [left; reflexivity|]. vm_compute. auto.
+  eexists. eexists. eexists. eexists. eexists. eexists. eexists.
+  split; [vm_compute; reflexivity|]. split; [vm_compute; reflexivity|].
+  split; [vm_compute; reflexivity|]. split; [vm_compute; reflexivity|].
+  split; [vm_compute; reflexivity|]. split; vm_compute; reflexivity.
 Qed.
-Print Assumptions help_captured_refuted.
+Print Assumptions enum_alias_repaired.
+
+(* ---- repaired: hdoc-captured-palette ---- *)
+(* HCommand / LLImpl look their palette up when they print (source_facts), so h(obj) is
+   ORender <help program> None false PNone 1: the palette of the GLOBAL configuration in force at
+   the call.  Closed form: a formula of the help program and of the state (no_color flag, syntax
+   map, registered classes) of that configuration -- when the HCommand object was created, what it
+   printed before, which configuration was global then, do not enter *)
+Theorem help_closed_form : forall fts w hobj ids w' outs,
+  reach fts w -> simple_obj hobj ->
+  step eko fts w (ORender hobj None false PNone 1 ids) = Ok (w', outs) ->
+  outs = [text_lines (pure_lines fts (top_colors (conf_in_force w None) (o_cls hobj)) (fun _ => []) (o_lines hobj))].
+Proof.
+  intros fts w hobj ids w' outs H Hs E.
+  assert (PNone <> PSynced) as Hpa by discriminate.
+  exact (single_palette_closed_form fts w hobj None PNone 1 ids w' outs H Hs Hpa E).
+Qed.
+Print Assumptions help_closed_form.
+
+(* history form: two histories that leave the global configuration in the same state print the
+   same help *)
+Theorem help_history_independent : forall fts ops1 w1 o1 ops2 w2 o2 hobj ids1 ids2 w1' t1 w2' t2,
+  Forall op_ok ops1 -> run_ops eko fts w0 ops1 = Ok (w1, o1) ->
+  Forall op_ok ops2 -> run_ops eko fts w0 ops2 = Ok (w2, o2) ->
+  simple_obj hobj ->
+  core (conf_in_force w1 None) = core (conf_in_force w2 None) ->
+  step eko fts w1 (ORender hobj None false PNone 1 ids1) = Ok (w1', t1) ->
+  step eko fts w2 (ORender hobj None false PNone 1 ids2) = Ok (w2', t2) ->
+  t1 = t2.
+Proof. intros fts ops1 w1 o1 ops2 w2 o2 hobj. exact (history_independent_single_palette fts ops1 w1 o1 ops2 w2 o2 hobj None 1). Qed.
+Print Assumptions help_history_independent.
+
+(* under a no_color global configuration help is plain text, whatever happened before *)
+Theorem help_no_color_global : forall fts w hobj ids w' outs,
+  reach fts w -> simple_obj hobj -> c_nocolor (conf_in_force w None) = true ->
+  step eko fts w (ORender hobj None false PNone 1 ids) = Ok (w', outs) ->
+  outs = [text_lines (plain_lines fts (o_lines hobj))].
+Proof.
+  intros fts w hobj ids w' outs H Hs Hnc E. rewrite (help_closed_form fts w hobj ids w' outs H Hs E).
+  f_equal. f_equal. apply pure_lines_nocolor_conf. exact Hnc.
+Qed.
+Print Assumptions help_no_color_global.
+
+(* the former witness (help_captured_refuted): help is printed in colour under the default global
+   configuration; set_global_colors_config(ColorsConfig(no_color=True)); the same h prints no ESC *)
+Example help_follows_global :
+  outs_of (run_ops eko [] w0 [ORender wit_hobj None false PNone 1 [1]; ONewConf 0 true []; OSetGlobal (Some 0);
+                              ORender wit_hobj None false PNone 1 [2]])
+    = Some [[[27; 91; 51; 52; 109; 102; 27; 91; 48; 109]]; []; []; [[102]]] /\
+  outs_of (run_ops eko [] w0 [ONewConf 0 true []; OSetGlobal (Some 0); ORender wit_hobj None false PNone 1 [1]])
+    = Some [[]; []; [[102]]] /\
+  simple_obj wit_hobj.
+Proof. split; [vm_compute; reflexivity|]. split; [vm_compute; reflexivity|reflexivity]. Qed.
+Print Assumptions help_follows_global.
 
 (* the repaired defect: in the model with the cache keyed by id(palette) the text
    depends on the identities the allocator hands out (render under A, drop A,
@@ -299,15 +368,15 @@ Print Assumptions id_keyed_cache_refuted.
 (* ---- the hypotheses are satisfiable on non-trivial values ---- *)
 (* a guarded history with an enum table rendered under two configurations, one
    dropped in between, identities re-used where CPython allows it; it produces
-   coloured text, and its objects satisfy obj_ok / obj_noesc *)
+   coloured text, and its object satisfies obj_noesc *)
 Example guards_satisfiable :
   let ops := wit_id_ops ++ [ORender (wit_etbl 0) (Some 1) false PNone 2 [1; 4]; ORender (wit_etbl 0) (Some 1) true PNone 3 [5; 6]] in
-  Forall op_ok ops /\ obj_ok (wit_etbl 0) /\ obj_noesc wit_ft1 (wit_etbl 0) /\
+  Forall op_ok ops /\ obj_noesc wit_ft1 (wit_etbl 0) /\
   exists w outs, run_ops eko wit_ft1 w0 ops = Ok (w, outs) /\
     nth 4 outs [] = [[27; 91; 51; 52; 109; 65; 27; 91; 48; 109]; [27; 91; 51; 52; 109; 65; 27; 91; 48; 109]] /\
     nth 5 outs [] = [[65]; [65]].
 Proof.
-  cbv zeta. split; [repeat constructor; discriminate|]. split; [repeat constructor|].
+  cbv zeta. split; [repeat constructor; discriminate|].
   split; [repeat constructor; vm_compute; intros [H|[]]; discriminate|].
   eexists. eexists. split; [vm_compute; reflexivity|]. split; reflexivity.
 Qed.
@@ -320,11 +389,11 @@ Example same_core_satisfiable :
   let ops1 := [ONewConf 0 false [(19, mkDescr None (FCol 5) (Some true))]] in
   let ops2 := [ONewConf 0 false [(19, mkDescr None (FCol 5) (Some true))]; ONewConf 1 false [];
                ORender j (Some 0) false PNone 0 [1]; ORender j (Some 1) true PNone 1 [2]; ODrop 1] in
-  simple_obj j /\ obj_ok j /\
+  simple_obj j /\
   exists w1 o1 w2 o2, run_ops eko [] w0 ops1 = Ok (w1, o1) /\ run_ops eko [] w0 ops2 = Ok (w2, o2) /\
     core (conf_in_force w1 (Some 0)) = core (conf_in_force w2 (Some 0)).
 Proof.
-  cbv zeta. split; [reflexivity|]. split; [repeat constructor|].
+  cbv zeta. split; [reflexivity|].
   eexists. eexists. eexists. eexists. split; [vm_compute; reflexivity|]. split; [vm_compute; reflexivity|].
   vm_compute. reflexivity.
 Qed.
@@ -337,8 +406,8 @@ Print Assumptions same_core_satisfiable.
    ESC-free when the texts of the value (string contents, str() of numbers and
    of keys) are *)
 Theorem pp_layout_guards : forall fj v,
-  obj_ok (pp_obj fj v) /\ simple_obj (pp_obj fj v) /\ (forall fts, jv_noesc v -> obj_noesc fts (pp_obj fj v)).
-Proof. intros fj v. split; [apply pp_obj_ok_l|]. split; [apply pp_obj_simple_l|]. intros fts. apply pp_obj_noesc_l. Qed.
+  simple_obj (pp_obj fj v) /\ (forall fts, jv_noesc v -> obj_noesc fts (pp_obj fj v)).
+Proof. intros fj v. split; [apply pp_obj_simple_l|]. intros fts. apply pp_obj_noesc_l. Qed.
 Print Assumptions pp_layout_guards.
 
 (* first clause of the property for pretty-printer results, layout included: any
@@ -354,7 +423,7 @@ Theorem pp_strip_layout : forall fts w1 w2 fj v copt1 copt2 nc pa1 pa2 mode1 mod
 Proof.
   intros fts w1 w2 fj v copt1 copt2 nc pa1 pa2 mode1 mode2 ids1 ids2 w1' w2' outs1 outs2 t1 t2 H1 H2 Hv.
   exact (strip_layout fts w1 w2 (pp_obj fj v) copt1 copt2 nc pa1 pa2 mode1 mode2 ids1 ids2 w1' w2' outs1 outs2 t1 t2
-           H1 H2 (pp_obj_ok_l fj v) (pp_obj_noesc_l fts fj v Hv)).
+           H1 H2 (pp_obj_noesc_l fts fj v Hv)).
 Qed.
 Print Assumptions pp_strip_layout.
 
@@ -369,8 +438,8 @@ Theorem pp_closed_form : forall fts w fj v copt nc pa mode ids w' outs,
                             (fun _ => []) (pp_lines fj v)).
 Proof.
   intros fts w fj v copt nc pa mode ids w' outs H Hpa Hs. destruct nc.
-  - exact (no_color_closed_form fts w (pp_obj fj v) copt pa mode ids w' outs H (pp_obj_ok_l fj v) Hpa Hs).
-  - exact (single_palette_closed_form fts w (pp_obj fj v) copt pa mode ids w' outs H (pp_obj_ok_l fj v) (pp_obj_simple_l fj v) Hpa Hs).
+  - exact (no_color_closed_form fts w (pp_obj fj v) copt pa mode ids w' outs H Hpa Hs).
+  - exact (single_palette_closed_form fts w (pp_obj fj v) copt pa mode ids w' outs H (pp_obj_simple_l fj v) Hpa Hs).
 Qed.
 Print Assumptions pp_closed_form.
 
@@ -410,13 +479,13 @@ Print Assumptions handle_created.
    objects printed through one palette -- a formula of the line and of the colours
    of the palette the handle holds, nothing else *)
 Theorem handle_closed_forms : forall fts w h cp o ids,
-  reach fts w -> zfind h (w_hcmds w) = Some cp -> obj_ok o -> simple_obj o ->
+  reach fts w -> zfind h (w_hcmds w) = Some cp -> simple_obj o ->
   (forall w' outs, step eko fts w (ONext h o ids) = Ok (w', outs) ->
      outs = [text_lines (pure_lines fts (p_colors (pal_of w cp)) (fun _ => []) (o_lines o))]) /\
   (forall mode w' outs, step eko fts w (OWholeH h o mode ids) = Ok (w', outs) ->
      outs = texts_of mode (pure_lines fts (p_colors (pal_of w cp)) (fun _ => []) (o_lines o))).
 Proof.
-  intros fts w h cp o ids H Eh Hok Hs. pose proof (inv_reachable fts w H) as Hi. split.
+  intros fts w h cp o ids H Eh Hs. pose proof (inv_reachable fts w H) as Hi. pose proof (obj_ok_all o) as Hok. split.
   - intros w' outs E. exact (next_simple fts _ _ _ _ _ _ _ Hi Eh Hok Hs E).
   - intros mode w' outs E. exact (whole_simple fts _ _ _ _ _ _ _ _ Hi Eh Hok Hs E).
 Qed.
@@ -430,12 +499,11 @@ Theorem interleaved_no_color : forall fts w h K copt pa ids w1 o1 ops w2 o2 obj 
   reach fts w -> pa <> PSynced ->
   step eko fts w (OMake h K copt true pa ids) = Ok (w1, o1) ->
   Forall op_ok ops -> Forall (keeps h) ops -> run_ops eko fts w1 ops = Ok (w2, o2) ->
-  obj_ok obj ->
   (forall w3 outs, step eko fts w2 (ONext h obj ids') = Ok (w3, outs) -> outs = [text_lines (plain_lines fts (o_lines obj))]) /\
   (forall mode w3 outs, step eko fts w2 (OWholeH h obj mode ids') = Ok (w3, outs) -> outs = texts_of mode (plain_lines fts (o_lines obj))).
 Proof.
-  intros fts w h K copt pa ids w1 o1 ops w2 o2 obj ids' H.
-  exact (interleaved_no_color_l fts w h K copt pa ids w1 o1 ops w2 o2 obj ids' (inv_reachable fts w H)).
+  intros fts w h K copt pa ids w1 o1 ops w2 o2 obj ids' H Hpa E1 Hok Hk E2.
+  exact (interleaved_no_color_l fts w h K copt pa ids w1 o1 ops w2 o2 obj ids' (inv_reachable fts w H) Hpa E1 Hok Hk E2 (obj_ok_all obj)).
 Qed.
 Print Assumptions interleaved_no_color.
 
